@@ -403,3 +403,133 @@ def r06_10(ctx):
                           f"reference history: in dyadic mode a value may depend on the entropy and options only",
                           "identical answers")
     ctx.floor("R06.10", 6 if light() else 14)
+
+
+# ------------------------------------------------------------------------------------------------ R04.11 (bridges)
+def _ref_cov(kind_i, I, kind_j, J):
+    if kind_i == "W" and kind_j == "W":
+        return bm_cov_WW(I, J)
+    if kind_i == "U" and kind_j == "W":
+        return bm_cov_UW(I, J)
+    if kind_i == "W" and kind_j == "U":
+        return bm_cov_UW(J, I)
+    return bm_cov_UU(I, J)
+
+
+def r04_11(ctx):
+    """'If the caller supplies the end-to-end W (or W and H) the path is the corresponding bridge and returns exactly that
+    value over the whole interval.'  By replay with symbolic W_user (and H_user): the whole-interval query returns them
+    verbatim; every other answer X = a W_user + b H_user + (linear form in unit normals), where (a, b) are the
+    coefficients of the conditional mean E[X | W(t0,t1), U(t0,t1)] and the covariance of the noise parts is the
+    conditional covariance -- both obtained by Gaussian conditioning of the Brownian reference covariances
+    (Sigma = Cov([W, U]) of the whole interval; mean Cov(X, [W,U]) Sigma^-1, covariance Cov(X,Y) - Cov(X,[W,U]) Sigma^-1
+    Cov([W,U], Y)).  With W alone supplied, H is drawn by the object and only W is conditioned on."""
+    rep, model = ctx.rep, ctx.model
+    rep.rule("R04.11", "replay with a user-supplied end-to-end W (and H): the whole interval returns it verbatim; elsewhere the "
+                       "answers are the Brownian bridge: conditional mean and conditional covariance by Gaussian "
+                       "conditioning of the reference covariances")
+    call = _call_fi(model)
+    rep.analysed(call)
+    if skipped(ctx, "R04.11", call):
+        return
+    Wn, Hn = nf.sym("W_user"), nf.sym("H_user")
+    WA, HA = ("t", "W_user"), ("t", "H_user")
+    T0, T1 = F(0), F(1)
+    whole = (T0, T1)
+    probes = [whole, (F(0), F(1, 4)), (F(1, 4), F(1, 2)), (F(3, 10), F(7, 10)), (F(5, 8), F(1))]
+    scenarios = [("W and H supplied", rp.Config(W=Wn, H=Hn), True), ("W supplied", rp.Config(W=Wn), False),
+                 ("W and H supplied, cache_size=0", rp.Config(W=Wn, H=Hn, cache_size=F(0)), True)]
+    if light():
+        scenarios = scenarios[:2]
+    for label, cfg, both in scenarios:
+        out, me, ses = _run(model, cfg, HIST_ADAPTIVE[:6] + probes, True)
+        construct0 = f"{call.key}::R04.11::{label}"
+        if isinstance(out, SimRaise):
+            rep.fail("R04.11", astq.loc(call), construct0, f"a query raises {out.exc_name}: {out.message}")
+            continue
+        ans = out[-len(probes):]
+        w0, u0 = Rat.lift(ans[0][0]), Rat.lift(ans[0][1])
+        ok_whole = nf.equal(w0, Wn) and (not both or nf.equal(u0, (T1 - T0) * (Wn * F(1, 2) + Hn)))
+        rep.check(ok_whole, "R04.11", astq.loc(call), f"{construct0}::whole-interval",
+                  f"{label}: the query over the whole interval returns (`{w0}`, `{u0}`), not the supplied W"
+                  f"{' and U = (t1 - t0)(W/2 + H)' if both else ''}", "returned verbatim")
+        # Gaussian conditioning of the reference
+        sWW, sWU, sUU = bm_cov_WW(whole, whole), bm_cov_UW(whole, whole), bm_cov_UU(whole, whole)
+        det = sWW * sUU - sWU * sWU
+        bad = []
+        items = [(k, I, Rat.lift(a[0] if k == "W" else a[1])) for I, a in zip(probes[1:], ans[1:]) for k in ("W", "U")]
+
+        def cond(kind, I):
+            cW, cU = _ref_cov(kind, I, "W", whole), _ref_cov(kind, I, "U", whole)
+            if both:
+                # coefficients on (W, U): [cW cU] Sigma^-1
+                aW = (cW * sUU - cU * sWU) / det
+                aU = (-cW * sWU + cU * sWW) / det
+                return aW, aU
+            return cW / sWW, F(0)
+        for kind, I, x in items:
+            aW, aU = cond(kind, I)
+            # U_user = (T1 - T0) (W/2 + H): coefficient on W_user is aW + aU T/2, on H_user aU T
+            T = T1 - T0
+            want_W, want_H = aW + aU * T / 2, aU * T
+            got_W, got_H = nf.coefficient_of(nf.reduce_sqrt(x), WA), nf.coefficient_of(nf.reduce_sqrt(x), HA)
+            if not nf.equal(got_W, Rat.const(want_W)) or (both and not nf.equal(got_H, Rat.const(want_H))):
+                bad.append(f"{kind}[{I[0]},{I[1]}]: coefficients on (W_user, H_user) are ({got_W}, {got_H}); the bridge has "
+                           f"({want_W}, {want_H if both else 0})")
+        noise = [(k, I, x - nf.coefficient_of(nf.reduce_sqrt(x), WA) * Wn - nf.coefficient_of(nf.reduce_sqrt(x), HA) * Hn)
+                 for k, I, x in items]
+        for i, (ki, Ii, ni) in enumerate(noise):
+            for kj, Ij, nj in noise[i:]:
+                aW, aU = cond(ki, Ii)
+                want = _ref_cov(ki, Ii, kj, Ij) - (aW * _ref_cov("W", whole, kj, Ij) + aU * _ref_cov("U", whole, kj, Ij))
+                got = rp.cov(ni, nj)
+                if not nf.equal(got, Rat.const(want)):
+                    bad.append(f"conditional Cov({ki}[{Ii[0]},{Ii[1]}], {kj}[{Ij[0]},{Ij[1]}]) = {got}; the bridge has {want}")
+        rep.check(not bad, "R04.11", astq.loc(call), f"{construct0}::bridge-law",
+                  f"{label}: {bad[0] if bad else ''} ({len(bad)} entries differ): the path is not the bridge pinned at the "
+                  f"supplied value(s)", "conditional mean and covariance of the bridge")
+    ctx.floor("R04.11", 4)
+
+
+# ------------------------------------------------------------------------------------------------ R07.9 (cache bound by replay)
+def _cfg_r07_9(model, tier, cfg):
+    """Every query of every history returns normally and the cache never holds more than cache_size entries."""
+    res = []
+    seq = on_grid(cfg, HIST_FWD_BWD + HIST_ADAPTIVE + HIST_ODD + HIST_HALF_THEN_STEP + PROBES)
+    s = rp.Session(model)
+    try:
+        me = s.build(cfg)
+    except SimRaise as e:
+        return [(False, "", f"BrownianInterval({cfg.label()}): the constructor raises {e.exc_name}: {e.message}", "")]
+    cache = next((v for k, v in me.attrs.items() if "cache" in k and not k.endswith("_size")), None)
+    worst, where = 0, None
+    for k, (ta, tb) in enumerate(seq):
+        try:
+            s.query(me, ta, tb, return_U=cfg.levy != "none")
+        except SimRaise as e:
+            return [(False, "", f"BrownianInterval({cfg.label()}): query no. {k + 1}, [{ta}, {tb}], raises {e.exc_name}: "
+                                f"{e.message}", "")]
+        store = getattr(cache, "store", None)
+        n = len(store) if store is not None else (len(cache) if isinstance(cache, dict) else 0)
+        if n > worst:
+            worst, where = n, (k, ta, tb)
+    bound = cfg.cache_size
+    ok = bound is None or worst <= int(bound)
+    res.append((ok, "", f"BrownianInterval({cfg.label()}): after query no. {where[0] + 1 if where else '?'} the cache holds {worst} "
+                        f"entries, more than cache_size = {bound}", f"at most {bound} cached entries over {len(seq)} queries"))
+    return res
+
+
+def r07_9(ctx):
+    rep, model = ctx.rep, ctx.model
+    rep.rule("R07.9", "replay: every query of four histories returns normally and the number of cached entries never exceeds "
+                      "cache_size, for cache sizes 0 .. 45 and unbounded, dt hints and both tree modes")
+    call = _call_fi(model)
+    rep.analysed(call)
+    if skipped(ctx, "R07.9", call):
+        return
+    cfgs = configs(ctx.tier)
+    if ctx.tier == "quick" and not light():
+        cfgs = cfgs + [rp.Config(cache_size=F(2)), rp.Config(cache_size=F(3), dt=F(1, 8))]
+    _report(ctx, "R07.9", call, per_config(model, ctx.tier, "_cfg_r07_9", cfgs))
+    ctx.floor("R07.9", 2 if light() else 4)
